@@ -11,17 +11,17 @@ import (
 
 // FmtCase mirrors subject.FmtCase.
 type FmtCase struct {
-	ID      int                 `json:"id"`
-	Proc    string              `json:"proc"`
-	Cmd     string              `json:"cmd"`
-	Outs    map[string]string   `json:"outs"`
-	In      map[string]string   `json:"in"`
-	Joined  map[string][]string `json:"joined"`
-	Params  map[string]string   `json:"params"`
-	Tags    map[string]string   `json:"tags"`
-	Prepend string              `json:"prepend"`
-	Missing string              `json:"missing,omitempty"` // non-empty: a value is missing, the child must die
-	InStream map[string]bool    `json:"in_stream,omitempty"` // in-ports whose file arrives as a stream (FIFO)
+	ID       int                 `json:"id"`
+	Proc     string              `json:"proc"`
+	Cmd      string              `json:"cmd"`
+	Outs     map[string]string   `json:"outs"`
+	In       map[string]string   `json:"in"`
+	Joined   map[string][]string `json:"joined"`
+	Params   map[string]string   `json:"params"`
+	Tags     map[string]string   `json:"tags"`
+	Prepend  string              `json:"prepend"`
+	Missing  string              `json:"missing,omitempty"`   // non-empty: a value is missing, the child must die
+	InStream map[string]bool     `json:"in_stream,omitempty"` // in-ports whose file arrives as a stream (FIFO)
 }
 
 var fmtInPaths = []string{"f.txt", "d/f.txt", "d/e/report.txt", "text.txt", "a-b_c/x.tar.gz", "../up/t.txt", "/abs/dir/g.txt", "data/s.in.txt", "d.x/f", "x/mat.txt", "../../pp/q.gz", "t.txt", "./.hid/in.txt", "./../o.txt", "./x.txt", ".h/y"}
